@@ -4,6 +4,7 @@ import random
 from fractions import Fraction
 
 import core
+from rates import fit as rates_fit
 import corecheck
 import gen
 from common import build_bins, load_known, run_model, Reader
@@ -354,7 +355,8 @@ def run(res, ctx):
                     x = {"sec": "FOO", "td": d0 + day, "sd": d0 + day, "act": act, "com": None, "cur": None, "rate": None, "af": af}
                     x.update(kw)
                     return x
-                kind = rng.choice(["roc-equal", "roc-over", "roc-zero-held", "sell-exact", "sell-over", "roc-fx-under", "roc-fx-over"])
+                kind = rng.choice(["roc-equal", "roc-over", "roc-zero-held", "sell-exact", "sell-over", "roc-fx-under", "roc-fx-over",
+                                   "reverse-split-whole", "reverse-split-whole"])
                 rows = [_q(0, "Buy", sh=core.D(nsh), aps=core.D(px))]
                 if kind == "roc-equal":
                     rows += [_q(10, "RoC", aps=core.D(px)), _q(20, "Sell", sh=core.D(nsh), aps=core.D(px + 1))]
@@ -368,6 +370,14 @@ def run(res, ctx):
                     # foreign currency above par: less than the cost base in USD, more in CAD (impossible)
                     rows += [_q(10, "RoC", aps=core.D(px * 80, 2), cur="USD", rate=core.D(135, 2)),
                              _q(20, "Sell", sh=core.D(1), aps=core.D(px))]
+                elif kind == "reverse-split-whole":
+                    # a whole-number reverse split with a factor that is not a finite decimal, of a holding it divides
+                    # evenly (valid: 6 shares through 1-for-3 are 2 shares), then a sale of what is left
+                    den = rng.choice([3, 7, 6, 9])
+                    mult = rng.choice([1, 2, 5])
+                    rows = [_q(0, "Buy", sh=core.D(den * mult), aps=core.D(px)),
+                            dict(_q(30, "Split"), split=("1", str(den))),
+                            _q(60, "Sell", sh=core.D(mult), aps=core.D(px * den + 1))]
                 elif kind == "roc-zero-held":
                     rows += [_q(10, "Sell", sh=core.D(nsh), aps=core.D(px + 1)), _q(50, "RoC", aps=core.D(1)),
                              _q(60, "Buy", sh=core.D(1), aps=core.D(px))]
@@ -442,7 +452,11 @@ def run(res, ctx):
                     what = "security %s: implementation %s (%s, %d rows) but in exact arithmetic the history is %s (%s, %d rows)" % (
                         sname, "rejects" if rejected else "accepts", core.REJ_NAMES.get(cls, cls), len(so["deltas"]),
                         "rejected" if x_rej else "accepted", core.REJ_NAMES.get(xs["stop"][1], xs["stop"][1]), len(xs["deltas"]))
-                    if nonterminating_split(r["case"]) and "split-residue" in known_ids:
+                    # the known class is about balances that are themselves ROUNDED: when every share balance of the
+                    # exact run is a 28-digit decimal (6 shares through 1-for-3 are exactly 2) nothing excuses a
+                    # different decision
+                    rounded_balance = any(rates_fit(v) != v for d_ in xs["deltas"] for v in (d_["post"][0], d_["post"][1]) if v is not None)
+                    if nonterminating_split(r["case"]) and rounded_balance and "split-residue" in known_ids:
                         known_hit["split-residue"] += 1
                     else:
                         res.violation("failing-input", what, {"input": r["hc"], "security": sname,
